@@ -223,6 +223,29 @@ Proof.
   unfold bind in Hb. destruct (link_token C h img text u t true _ fl); inv_ok Hb. reflexivity.
 Qed.
 
+Lemma link_after_pos h src fl img lab text e p toks r : link_after C h src fl img lab text e = Ok (Some p, toks, r) -> e <= p.
+Proof.
+  unfold link_after. cbv zeta.
+  assert (Hby : forall lb ep, link_by_ref C h img text fl lb ep = Ok (Some p, toks, r) -> p = ep) by (intros lb ep; apply link_by_ref_pos).
+  destruct (nth_error src e) as [c|]; [|intros H; apply Hby in H; lia].
+  destruct (c =? 40)%Z.
+  - unfold bind. destruct (parse_link_dest C src (S e)) as [[[[u t'] p2]|]| |] eqn:Ed; try discriminate; try (intros H; apply Hby in H; lia).
+    apply parse_link_dest_pos in Ed. destruct (Nat.eqb p2 0); [intros H; apply Hby in H; lia|].
+    destruct (link_token C h img text u t' _ None fl); intros H; inv_ok H. lia.
+  - destruct (c =? 91)%Z; [|intros H; apply Hby in H; lia].
+    destruct (parse_link_label C src (S e)) as [[l2 p2]|] eqn:E2; [|intros H; apply Hby in H; lia].
+    destruct (parse_link_label_pos _ _ _ _ E2) as [L2 _].
+    destruct (Nat.eqb p2 0); intros H; apply Hby in H; lia.
+Qed.
+
+Lemma link_body_pos h m src fl img lab text e p toks r : link_body C h m src fl img lab text e = Ok (Some p, toks, r) -> e <= p.
+Proof.
+  unfold link_body. destruct (_ && _); [discriminate|]. unfold bind.
+  destruct (precedence_scan C h m src fl e _) as [[[q tk]|]| |] eqn:Ep; try discriminate.
+  - intros H; inv_ok H. apply precedence_scan_pos in Ep. exact Ep.
+  - apply link_after_pos.
+Qed.
+
 Lemma handle_with_progress h : progresses (handle_with C h).
 Proof.
   intros rk m src fl np toks fl' H p Hp. apply truthy_le in Hp. subst np.
@@ -246,44 +269,10 @@ Proof.
         match type of H with context [irender ?a ?b ?c ?d] => destruct (irender a b c d) end; inv_ok H; exact Hend.
   - (* link *)
     destruct ((prefixb [33%Z] (group0 src m) && in_image fl) || (negb (prefixb [33%Z] (group0 src m)) && in_link fl)); [inv_ok H; lia|].
-    unfold bind in H.
     destruct (parse_link_label C src (mend m)) as [[l e]|] eqn:El.
-    + (* label *)
-      destruct (parse_link_label_pos _ _ _ _ El) as [Le _].
-      destruct (Nat.leb (length src) e && false); [inv_ok H|].
-      destruct (precedence_scan C h m src fl e _) as [[[q tk]|]| |] eqn:Ep; try discriminate.
-      * inv_ok H. apply precedence_scan_pos in Ep. lia.
-      * cbv zeta in H. revert H.
-        assert (Hby : forall lab ep r, link_by_ref C h (prefixb [33%Z] (group0 src m)) l fl lab ep = Ok (Some p, toks, r) -> p = ep)
-          by (intros lab ep r; apply link_by_ref_pos).
-        destruct (nth_error src e) as [c|];  [|intros H; apply Hby in H; lia].
-        destruct (c =? 40)%Z.
-        -- destruct (parse_link_dest C src (S e)) as [[[[u t'] p2]|]| |] eqn:Ed; try discriminate.
-           ++ apply parse_link_dest_pos in Ed. destruct (Nat.eqb p2 0); [intros H; apply Hby in H; lia|].
-              destruct (link_token C h _ l u t' _ None fl); intros H; inv_ok H. lia.
-           ++ intros H; apply Hby in H; lia.
-        -- destruct (c =? 91)%Z; [|intros H; apply Hby in H; lia].
-           destruct (parse_link_label C src (S e)) as [[l2 p2]|] eqn:E2; [|intros H; apply Hby in H; lia].
-           destruct (parse_link_label_pos _ _ _ _ E2) as [L2 _].
-           destruct (Nat.eqb p2 0); intros H; apply Hby in H; lia.
-    + (* text *)
-      destruct (parse_link_text C src (mend m)) as [[[t e]|]| |] eqn:Et; try discriminate.
-      destruct (parse_link_text_pos _ _ _ _ Et) as [Le _].
-      destruct (Nat.leb (length src) e && true); [inv_ok H|].
-      destruct (precedence_scan C h m src fl e _) as [[[q tk]|]| |] eqn:Ep; try discriminate.
-      * inv_ok H. apply precedence_scan_pos in Ep. lia.
-      * cbv zeta in H. revert H.
-        assert (Hby : forall lab ep r, link_by_ref C h (prefixb [33%Z] (group0 src m)) t fl lab ep = Ok (Some p, toks, r) -> p = ep)
-          by (intros lab ep r; apply link_by_ref_pos).
-        destruct (nth_error src e) as [c|];  [|intros H; apply Hby in H; lia].
-        destruct (c =? 40)%Z.
-        -- destruct (parse_link_dest C src (S e)) as [[[[u t'] p2]|]| |] eqn:Ed; try discriminate; try (intros H; apply Hby in H; lia).
-           apply parse_link_dest_pos in Ed. destruct (Nat.eqb p2 0); [intros H; apply Hby in H; lia|].
-           destruct (link_token C h _ t u t' _ None fl); intros H; inv_ok H. lia.
-        -- destruct (c =? 91)%Z; [|intros H; apply Hby in H; lia].
-           destruct (parse_link_label C src (S e)) as [[l2 p2]|] eqn:E2; [|intros H; apply Hby in H; lia].
-           destruct (parse_link_label_pos _ _ _ _ E2) as [L2 _].
-           destruct (Nat.eqb p2 0); intros H; apply Hby in H; lia.
+    + destruct (parse_link_label_pos _ _ _ _ El) as [Le _]. apply link_body_pos in H. lia.
+    + unfold bind in H. destruct (parse_link_text C src (mend m)) as [[[t e]|]| |] eqn:Et; try discriminate.
+      destruct (parse_link_text_pos _ _ _ _ Et) as [Le _]. apply link_body_pos in H. lia.
   - (* auto_link *) destruct (in_link fl); [inv_ok H; lia|]. destruct (c_escape_url C _); inv_ok H. lia.
   - (* auto_email *) destruct (in_link fl); [inv_ok H; lia|]. destruct (c_escape_url C _); inv_ok H. lia.
   - (* inline_html *) inv_ok H. lia.
@@ -292,4 +281,207 @@ Proof.
   - (* prec_auto_link *) destruct (in_link fl); [inv_ok H; lia|]. destruct (c_escape_url C _); inv_ok H. lia.
   - inv_ok H. lia.
 Qed.
+
+(* ---- no loop of the model runs out of fuel ---- *)
+Lemma iscan_at_in rules z rk m : iscan_at C rules z = Some (rk, m) -> In rk rules.
+Proof.
+  induction rules as [|r rs IH]; cbn; [discriminate|]. destruct (match_at (c_uni C) (c_spec C r) z).
+  - intros [= <- _]. left. reflexivity.
+  - intros H. right. apply IH. exact H.
+Qed.
+
+Lemma iscan_from_in rules : forall fuel z rk m, iscan_from C rules fuel z = Some (rk, m) -> In rk rules.
+Proof.
+  induction fuel as [|f IH]; intros z rk m H; cbn [iscan_from] in H; destruct (iscan_at C rules z) as [[rk' m']|] eqn:E.
+  - inversion H; subst. eapply iscan_at_in; exact E.
+  - discriminate.
+  - inversion H; subst. eapply iscan_at_in; exact E.
+  - destruct (zstep z) as [[ch z']|]; [|discriminate]. eapply IH; exact H.
+Qed.
+
+Lemma isearch_in rules s pos e rk m : isearch C rules s pos e = Some (rk, m) -> In rk rules.
+Proof. unfold isearch. destruct (Nat.ltb _ _); [discriminate|]. apply iscan_from_in. Qed.
+
+Definition nofuel_on (h : handler) (src : str) : Prop :=
+  forall rk m fl, mstart m < mend m -> h rk m src fl <> Fuel.
+
+Lemma parse_loop_nofuel h src : progresses h -> nofuel_on h src ->
+  forall iters pos fl acc, length src - pos < iters -> parse_loop C h iters src pos fl acc <> Fuel.
+Proof.
+  intros Hp Hn. induction iters as [|it IH]; intros pos fl acc Hi; [lia|]. cbn [parse_loop].
+  destruct (Nat.leb_spec (length src) pos).
+  - destruct (Nat.eqb pos 0); [discriminate|]. destruct (Nat.ltb pos (length src)); discriminate.
+  - destruct (isearch C (c_rules C) src pos (length src)) as [[rk m]|] eqn:Es.
+    + destruct (isearch_pos _ _ _ _ _ _ Es) as [L1 L2]. unfold bind.
+      pose proof (Hn rk m fl L2) as Hf. destruct (h rk m src fl) as [[[np toks] fl']| |] eqn:Eh; [|discriminate|contradiction].
+      destruct (truthy np) as [p|] eqn:Et.
+      * pose proof (Hp _ _ _ _ _ _ _ Eh p Et) as Lp. apply IH. lia.
+      * apply IH. lia.
+    + destruct (Nat.eqb pos 0); [discriminate|]. destruct (Nat.ltb pos (length src)); discriminate.
+Qed.
+
+Lemma irender_nofuel h text fl : progresses h -> nofuel_on h text -> irender C h text fl <> Fuel.
+Proof. intros Hp Hn. unfold irender. apply parse_loop_nofuel; auto. lia. Qed.
+
+Lemma precedence_scan_nofuel h m src fl e rules :
+  (forall rk, In rk rules -> forall m2 fl', mstart m2 < mend m2 -> h (real_rule rk) m2 src fl' <> Fuel) ->
+  precedence_scan C h m src fl e rules <> Fuel.
+Proof.
+  intros Hh. unfold precedence_scan. destruct (isearch C rules src (mend m) e) as [[rk m1]|] eqn:Es; [|discriminate].
+  apply isearch_in in Es.
+  destruct (re_match (c_uni C) (c_spec C (real_rule rk)) src (mstart m1) (length src)) as [m2|] eqn:Em; [|discriminate].
+  pose proof (ok_spec OK (real_rule rk)) as S. destruct (re_match_pos _ _ _ _ _ _ (solid_wf _ S) Em) as (A & _ & Cn).
+  specialize (Cn (solid_nn _ S)). assert (L : mstart m2 < mend m2) by (unfold mstart, mend; lia).
+  unfold bind. pose proof (Hh rk Es m2 fl L) as Hf. destruct (h (real_rule rk) m2 src fl) as [[[np tk] fl2]| |]; [|discriminate|contradiction].
+  destruct (truthy np); [|discriminate]. destruct (Nat.ltb _ _); discriminate.
+Qed.
+
+Lemma link_token_nofuel h img text url title tk ref fl : (forall fl', irender C h text fl' <> Fuel) -> link_token C h img text url title tk ref fl <> Fuel.
+Proof.
+  unfold link_token, bind. intros H.
+  match goal with |- context [irender ?a ?b ?c ?d] => pose proof (H d) as Hx; destruct (irender a b c d) end; [discriminate|discriminate|contradiction].
+Qed.
+
+Lemma link_by_ref_nofuel h img text fl lab ep : (forall fl', irender C h text fl' <> Fuel) -> link_by_ref C h img text fl lab ep <> Fuel.
+Proof.
+  intros Hr. unfold link_by_ref. destruct lab; [|discriminate]. destruct (c_refs C); [discriminate|].
+  destruct (assoc_ref _ _) as [[u t]|]; [|discriminate]. unfold bind.
+  pose proof (link_token_nofuel h img text u t true (Some (c_unikey C s, s)) fl Hr) as Hl.
+  destruct (link_token C h img text u t true _ fl); [discriminate|discriminate|contradiction].
+Qed.
+
+Lemma link_after_nofuel h src fl img lab text e : (forall fl', irender C h text fl' <> Fuel) -> link_after C h src fl img lab text e <> Fuel.
+Proof.
+  intros Hir. unfold link_after. cbv zeta.
+  assert (Hby : forall l ep, link_by_ref C h img text fl l ep <> Fuel) by (intros; apply link_by_ref_nofuel; exact Hir).
+  destruct (nth_error src e) as [c|]; [|apply Hby].
+  destruct (c =? 40)%Z.
+  - unfold bind. destruct (parse_link_dest C src (S e)) as [[[[u t] p2]|]| |] eqn:Ed; [| apply Hby | discriminate |].
+    + destruct (Nat.eqb p2 0); [apply Hby|].
+      pose proof (link_token_nofuel h img text u t (match t with Some _ => true | None => false end) None fl Hir) as Hl.
+      destruct (link_token C h img text u t _ None fl); [discriminate|discriminate|contradiction].
+    + exfalso. unfold parse_link_dest in Ed. destruct (parse_link_href C src (S e)) as [[hh hp]|]; [|discriminate].
+      destruct (re_match _ _ _ _ _); [|discriminate]. destruct (c_escape_url C _); discriminate.
+  - destruct (c =? 91)%Z; [|apply Hby]. destruct (parse_link_label C src (S e)) as [[l2 p2]|]; [|apply Hby].
+    destruct (Nat.eqb p2 0); apply Hby.
+Qed.
+
+Definition deps (rk : irule) : list irule :=
+  match rk with
+  | IEmphasis => [ICodespan; ILink; IAutoLink; IInlineHtml]
+  | ILink => [ICodespan; IAutoLink; IInlineHtml]
+  | _ => []
+  end.
+
+Lemma slice_len (s : str) a b : length (slice s a b) <= length s - a.
+Proof. unfold slice. rewrite firstn_length, skipn_length. lia. Qed.
+
+Lemma handle_with_nofuel h rk m src fl : mstart m < mend m ->
+  (forall text fl', length text <= length src - mend m -> irender C h text fl' <> Fuel) ->
+  (forall rule, In rule (deps rk) -> forall m2 fl', mstart m2 < mend m2 -> h rule m2 src fl' <> Fuel) ->
+  handle_with C h rk m src fl <> Fuel.
+Proof.
+  intros Lm Hr Hd. assert (Lp : 1 <= mend m) by lia. unfold handle_with. destruct rk; try discriminate.
+  - (* codespan *) destruct (re_match _ _ _ _ _); [destruct (group_n _ _ _)|]; discriminate.
+  - (* emphasis *)
+    destruct (_ || _); [discriminate|]. destruct (c_emph_end C _) as [er|] eqn:Ee; [|discriminate].
+    destruct (re_search (c_uni C) er src (mend m) (length src)) as [m1|] eqn:Es; [|discriminate].
+    destruct (re_search_pos _ _ _ _ _ _ (ok_emph OK _ _ Ee) Es) as (A & B & _).
+    unfold bind.
+    assert (Hps : precedence_scan C h m src fl (mend m1) [ICodespan; ILink; IPrecAutoLink; IPrecInlineHtml] <> Fuel).
+    { apply precedence_scan_nofuel. intros rk Hin. apply Hd. cbn [deps]. cbn in Hin.
+      destruct Hin as [<-|[<-|[<-|[<-|[]]]]]; cbn; tauto. }
+    destruct (precedence_scan C h m src fl (mend m1) _) as [[[q tk]|]| |]; [discriminate| |discriminate|contradiction].
+    assert (Ht : forall fl', irender C h (slice src (mend m) (mend m1 - length (group0 src m))) fl' <> Fuel).
+    { intros fl'. apply Hr. apply slice_len. }
+    destruct (Nat.eqb _ 1); [|destruct (Nat.eqb _ 2)];
+      match goal with |- context [irender ?a ?b ?c ?d] => pose proof (Ht d) as Hx; destruct (irender a b c d) end;
+      first [discriminate|contradiction].
+  - (* link *)
+    destruct (_ || _); [discriminate|].
+    assert (Hbody : forall lab text e, length text <= length src - mend m -> link_body C h m src fl (prefixb [33%Z] (group0 src m)) lab text e <> Fuel).
+    { intros lab text e Ht.
+      assert (Hir : forall fl', irender C h text fl' <> Fuel) by (intros fl'; apply Hr; exact Ht).
+      unfold link_body. destruct (_ && _); [discriminate|]. unfold bind.
+      assert (Hps : precedence_scan C h m src fl e [ICodespan; IPrecAutoLink; IPrecInlineHtml] <> Fuel).
+      { apply precedence_scan_nofuel. intros rk Hin. apply Hd. cbn [deps]. cbn in Hin.
+        destruct Hin as [<-|[<-|[<-|[]]]]; cbn; tauto. }
+      destruct (precedence_scan C h m src fl e _) as [[[q tk]|]| |]; [discriminate| |discriminate|contradiction].
+      apply link_after_nofuel. exact Hir. }
+    destruct (parse_link_label C src (mend m)) as [[l e]|] eqn:El.
+    + destruct (parse_link_label_pos _ _ _ _ El) as [_ Ll]. apply Hbody. exact Ll.
+    + unfold bind. pose proof (parse_link_text_fuel src (mend m)) as Hf.
+      destruct (parse_link_text C src (mend m)) as [[[t e]|]| |] eqn:Et; [|discriminate|discriminate|contradiction].
+      destruct (parse_link_text_pos _ _ _ _ Et) as [_ Lt]. apply Hbody. exact Lt.
+  - (* auto_link *) destruct (in_link fl); [discriminate|]. destruct (c_escape_url C _); discriminate.
+  - destruct (in_link fl); [discriminate|]. destruct (c_escape_url C _); discriminate.
+  - destruct (in_link fl); [discriminate|]. destruct (c_escape_url C _); discriminate.
+Qed.
+
+Lemma handle_progresses fuel : progresses (handle C fuel).
+Proof.
+  destruct fuel as [|f]; cbn [handle].
+  - intros rk m src fl np toks fl' H. discriminate.
+  - apply handle_with_progress.
+Qed.
+
+Lemma leaf_nofuel h rk m src fl : rk <> IEmphasis -> rk <> ILink -> handle_with C h rk m src fl <> Fuel.
+Proof.
+  intros N1 N2. unfold handle_with. destruct rk; try discriminate; try contradiction.
+  - destruct (re_match _ _ _ _ _); [destruct (group_n _ _ _)|]; discriminate.
+  - destruct (in_link fl); [discriminate|]. destruct (c_escape_url C _); discriminate.
+  - destruct (in_link fl); [discriminate|]. destruct (c_escape_url C _); discriminate.
+  - destruct (in_link fl); [discriminate|]. destruct (c_escape_url C _); discriminate.
+Qed.
+
+Lemma irender_nil h fl : irender C h [] fl = Ok [TText []].
+Proof. reflexivity. Qed.
+
+(* fuel 2*L+3 is enough for every text of length at most L *)
+Theorem handle_nofuel : forall L fuel src, length src <= L -> 2 * L + 3 <= fuel -> nofuel_on (handle C fuel) src.
+Proof.
+  induction L as [|L' IH]; intros fuel src Hlen Hfuel rk m fl Lm.
+  - (* empty text: only texts of length 0 are rendered below *)
+    assert (Htext : forall g text fl', length text <= length src - mend m -> irender C (handle C g) text fl' <> Fuel).
+    { intros g text fl' Ht. destruct text; [rewrite irender_nil; discriminate|cbn in Ht; lia]. }
+    destruct fuel as [|f]; [lia|]. cbn [handle].
+    assert (Hleaf : forall g rule m2 fl', 1 <= g -> rule <> IEmphasis -> rule <> ILink -> handle C g rule m2 src fl' <> Fuel).
+    { intros g rule m2 fl' Hg N1 N2. destruct g; [lia|]. cbn [handle]. apply leaf_nofuel; assumption. }
+    assert (Hlink : forall g m2 fl', 1 <= g -> mstart m2 < mend m2 -> handle C (S g) ILink m2 src fl' <> Fuel).
+    { intros g m2 fl' Hg L2. cbn [handle]. apply handle_with_nofuel; [exact L2| |].
+      - intros text fl2 Ht. destruct text; [rewrite irender_nil; discriminate|cbn in Ht; lia].
+      - intros rule Hin m3 fl3 L3. apply Hleaf; [exact Hg| |]; cbn in Hin; destruct Hin as [<-|[<-|[<-|[]]]]; discriminate. }
+    apply handle_with_nofuel; [exact Lm|apply Htext|].
+    intros rule Hin m2 fl2 L2. destruct rk; cbn in Hin; try contradiction.
+    + destruct Hin as [<-|[<-|[<-|[<-|[]]]]]; try (apply Hleaf; [lia|discriminate|discriminate]).
+      destruct f as [|g]; [lia|]. apply Hlink; [lia|exact L2].
+    + destruct Hin as [<-|[<-|[<-|[]]]]; apply Hleaf; try lia; discriminate.
+  - assert (Htext : forall g text fl', 2 * L' + 3 <= g -> length text <= length src - mend m -> forall mm, mend mm = mend m -> irender C (handle C g) text fl' <> Fuel).
+    { intros g text fl' Hg Ht mm _. apply irender_nofuel; [apply handle_progresses|]. apply (IH g text); [lia|exact Hg]. }
+    destruct fuel as [|f]; [lia|]. cbn [handle].
+    assert (Hleaf : forall g rule m2 fl', 1 <= g -> rule <> IEmphasis -> rule <> ILink -> handle C g rule m2 src fl' <> Fuel).
+    { intros g rule m2 fl' Hg N1 N2. destruct g; [lia|]. cbn [handle]. apply leaf_nofuel; assumption. }
+    assert (Hlink : forall g m2 fl', 2 * L' + 3 <= g -> mstart m2 < mend m2 -> handle C (S g) ILink m2 src fl' <> Fuel).
+    { intros g m2 fl' Hg L2. cbn [handle]. apply handle_with_nofuel; [exact L2| |].
+      - intros text fl2 Ht. apply irender_nofuel; [apply handle_progresses|]. apply (IH g text); [lia|exact Hg].
+      - intros rule Hin m3 fl3 L3. apply Hleaf; [lia| |]; cbn in Hin; destruct Hin as [<-|[<-|[<-|[]]]]; discriminate. }
+    apply handle_with_nofuel; [exact Lm| |].
+    + intros text fl' Ht. apply (Htext f text fl' ltac:(lia) Ht m eq_refl).
+    + intros rule Hin m2 fl2 L2. destruct rk; cbn in Hin; try contradiction.
+      * destruct Hin as [<-|[<-|[<-|[<-|[]]]]]; try (apply Hleaf; [lia|discriminate|discriminate]).
+        destruct f as [|g]; [lia|]. apply Hlink; [lia|exact L2].
+      * destruct Hin as [<-|[<-|[<-|[]]]]; apply Hleaf; try lia; discriminate.
+Qed.
+
+(* the model of InlineParser.__call__ terminates: for every text, flag setting and reference table *)
+Theorem inline_parse_terminates s : inline_parse C s <> Fuel.
+Proof.
+  unfold inline_parse. apply irender_nofuel; [apply handle_progresses|].
+  apply (handle_nofuel (length s)); lia.
+Qed.
+
+(* and every step of its scanner loop moves forward (the cursor is strictly monotone): restated for the loop body *)
+Theorem inline_step_advances fuel rk m src fl np toks fl' p :
+  handle C fuel rk m src fl = Ok (np, toks, fl') -> truthy np = Some p -> mend m <= p.
+Proof. intros H Hp. exact (handle_progresses fuel _ _ _ _ _ _ _ H p Hp). Qed.
 End Progress.
